@@ -91,3 +91,83 @@ class Bus:
             return e.value
         finally:
             seq.close()
+
+
+def run_interleaved(pairs, schedule=(), cycle=None, order=None):
+    """Run SEVERAL independent generator-sequences at the same time, each against its OWN Bus, the
+    way several drivers in one process (one per DALI line) would: the sequences are advanced
+    alternately, command by command.
+
+    pairs     [(bus, seq), ...]; seq is a generator, or a zero-argument callable returning one
+              (called when the sequence is advanced for the first time, so that argument checks
+              done at call time count as the sequence's first step)
+    schedule  iterable of indices into pairs: which sequence advances next.  One "advance" resumes
+              the sequence with the answer to its previous command and runs it until it has put ONE
+              more command on its bus (sleep/progress items in between are consumed) or ends.
+              Indices of finished sequences (and indices out of range) are skipped.
+    cycle     list of indices used, repeatedly, once `schedule` is used up (default: round-robin
+              over all sequences).  A cycle that names no unfinished sequence falls back to
+              round-robin, so every sequence always runs to its end.
+    order     optional list; the index of the sequence advanced is appended at every advance made
+
+    Each bus does for its sequence exactly what Bus.run does (Bus.transact: ENABLE DEVICE TYPE
+    prefix, faults by position, response wrapping, command cap).  Returns one outcome per pair, in
+    order: ("returned", value) or ("raised", exception) - exceptions (NonTermination included) end
+    only the sequence that raised them and are handed to the caller, who knows which are allowed."""
+    from dali import command
+    n = len(pairs)
+    buses = [p[0] for p in pairs]
+    seqs = [p[1] for p in pairs]
+    resp = [None] * n
+    outcome = [None] * n
+    live = n
+
+    def advance(i):
+        # one command's worth of progress of sequence i
+        if order is not None:
+            order.append(i)
+        try:
+            if not hasattr(seqs[i], "send"):
+                seqs[i] = seqs[i]()
+            while True:
+                item = seqs[i].send(resp[i])
+                resp[i] = None
+                if isinstance(item, command.Command):
+                    resp[i] = buses[i].transact(item)
+                    return
+        except StopIteration as e:
+            outcome[i] = ("returned", e.value)
+        except Exception as e:  # noqa: handed to the caller
+            outcome[i] = ("raised", e)
+
+    try:
+        for i in schedule:
+            if live == 0:
+                break
+            if isinstance(i, int) and 0 <= i < n and outcome[i] is None:
+                advance(i)
+                if outcome[i] is not None:
+                    live -= 1
+        cyc = [i for i in (cycle if cycle else range(n)) if isinstance(i, int) and 0 <= i < n]
+        while live:
+            if not any(outcome[i] is None for i in cyc):
+                cyc = list(range(n))
+            for i in cyc:
+                if outcome[i] is None:
+                    advance(i)
+                    if outcome[i] is not None:
+                        live -= 1
+    finally:
+        for s in seqs:
+            if hasattr(s, "close"):
+                s.close()
+    return outcome
+
+
+def block_schedule(n, block, total):
+    """Schedule of `total` advances for n sequences in blocks: 0 x block, 1 x block, ..."""
+    out = []
+    while len(out) < total:
+        for i in range(n):
+            out.extend([i] * block)
+    return out[:total]
